@@ -56,8 +56,11 @@ class Gateway:
     @protocol_version.setter
     def protocol_version(self, value: str) -> None:
         """Return the protocol version."""
+        # Resolve the protocol first, so a version that can't be resolved
+        # leaves the stored version and the active protocol in agreement.
+        protocol = get_protocol(value)
         self._protocol_version = value
-        protocol = self._protocol = get_protocol(self._protocol_version)
+        self._protocol = protocol
         self._message_schema.set_protocol(protocol)
 
     async def listen(self) -> AsyncGenerator[Message, None]:
